@@ -958,16 +958,16 @@ static const yytype_int16 yyrline[] =
      692,   691,   716,   722,   782,   783,   784,   785,   786,   787,
      793,   814,   845,   850,   867,   872,   892,   893,   907,   908,
      909,   910,   911,   915,   916,   930,   934,  1030,  1078,  1139,
-    1184,  1185,  1189,  1224,  1277,  1332,  1363,  1370,  1377,  1390,
-    1401,  1412,  1423,  1434,  1445,  1456,  1467,  1482,  1498,  1510,
-    1585,  1623,  1527,  1752,  1775,  1787,  1815,  1834,  1857,  1905,
-    1912,  1919,  1918,  1965,  1964,  2015,  2023,  2031,  2039,  2047,
-    2055,  2063,  2067,  2075,  2076,  2101,  2121,  2149,  2223,  2255,
-    2273,  2284,  2327,  2343,  2363,  2373,  2372,  2381,  2395,  2396,
-    2401,  2411,  2426,  2425,  2438,  2439,  2444,  2477,  2502,  2558,
-    2565,  2571,  2577,  2587,  2591,  2599,  2611,  2625,  2632,  2639,
-    2664,  2676,  2688,  2700,  2715,  2727,  2742,  2788,  2809,  2844,
-    2879,  2913,  2944,  2967,  2977,  2987,  2997,  3007,  3027,  3047
+    1185,  1191,  1195,  1230,  1283,  1338,  1369,  1376,  1383,  1396,
+    1407,  1418,  1429,  1440,  1451,  1462,  1473,  1488,  1504,  1516,
+    1591,  1629,  1533,  1758,  1781,  1793,  1821,  1840,  1863,  1911,
+    1918,  1925,  1924,  1971,  1970,  2021,  2029,  2037,  2045,  2053,
+    2061,  2069,  2073,  2081,  2082,  2107,  2127,  2155,  2229,  2261,
+    2279,  2290,  2333,  2349,  2369,  2379,  2378,  2387,  2401,  2402,
+    2407,  2417,  2432,  2431,  2444,  2445,  2450,  2483,  2508,  2564,
+    2571,  2577,  2583,  2593,  2597,  2605,  2617,  2631,  2638,  2645,
+    2670,  2682,  2694,  2706,  2721,  2733,  2748,  2794,  2815,  2850,
+    2885,  2919,  2950,  2973,  2983,  2993,  3003,  3013,  3033,  3053
 };
 #endif
 
@@ -3136,19 +3136,24 @@ yyreduce:
     break;
 
   case 70: /* arguments: %empty  */
-#line 1184 "libyara/grammar.y"
-                      { (yyval.c_string) = yr_strdup(""); }
-#line 3142 "libyara/grammar.c"
+#line 1185 "libyara/grammar.y"
+      {
+        (yyval.c_string) = yr_strdup("");
+
+        if ((yyval.c_string) == NULL)
+          fail_with_error(ERROR_INSUFFICIENT_MEMORY);
+      }
+#line 3147 "libyara/grammar.c"
     break;
 
   case 71: /* arguments: arguments_list  */
-#line 1185 "libyara/grammar.y"
+#line 1191 "libyara/grammar.y"
                       { (yyval.c_string) = (yyvsp[0].c_string); }
-#line 3148 "libyara/grammar.c"
+#line 3153 "libyara/grammar.c"
     break;
 
   case 72: /* arguments_list: expression  */
-#line 1190 "libyara/grammar.y"
+#line 1196 "libyara/grammar.y"
       {
         (yyval.c_string) = (char*) yr_malloc(YR_MAX_FUNCTION_ARGS + 1);
 
@@ -3183,11 +3188,11 @@ yyreduce:
             assert(compiler->last_error != ERROR_SUCCESS);
         }
       }
-#line 3187 "libyara/grammar.c"
+#line 3192 "libyara/grammar.c"
     break;
 
   case 73: /* arguments_list: arguments_list ',' expression  */
-#line 1225 "libyara/grammar.y"
+#line 1231 "libyara/grammar.y"
       {
         int result = ERROR_SUCCESS;
 
@@ -3236,11 +3241,11 @@ yyreduce:
 
         (yyval.c_string) = (yyvsp[-2].c_string);
       }
-#line 3240 "libyara/grammar.c"
+#line 3245 "libyara/grammar.c"
     break;
 
   case 74: /* regexp: "regular expression"  */
-#line 1278 "libyara/grammar.y"
+#line 1284 "libyara/grammar.y"
       {
         YR_ARENA_REF re_ref;
         RE_ERROR error;
@@ -3291,11 +3296,11 @@ yyreduce:
 
         (yyval.expression).type = EXPRESSION_TYPE_REGEXP;
       }
-#line 3295 "libyara/grammar.c"
+#line 3300 "libyara/grammar.c"
     break;
 
   case 75: /* boolean_expression: expression  */
-#line 1333 "libyara/grammar.y"
+#line 1339 "libyara/grammar.y"
       {
         if ((yyvsp[0].expression).type == EXPRESSION_TYPE_STRING)
         {
@@ -3323,33 +3328,33 @@ yyreduce:
 
         (yyval.expression).type = EXPRESSION_TYPE_BOOLEAN;
       }
-#line 3327 "libyara/grammar.c"
+#line 3332 "libyara/grammar.c"
     break;
 
   case 76: /* expression: "<true>"  */
-#line 1364 "libyara/grammar.y"
+#line 1370 "libyara/grammar.y"
       {
         fail_if_error(yr_parser_emit_push_const(yyscanner, 1));
 
         (yyval.expression).type = EXPRESSION_TYPE_BOOLEAN;
         (yyval.expression).required_strings.count = 0;
       }
-#line 3338 "libyara/grammar.c"
+#line 3343 "libyara/grammar.c"
     break;
 
   case 77: /* expression: "<false>"  */
-#line 1371 "libyara/grammar.y"
+#line 1377 "libyara/grammar.y"
       {
         fail_if_error(yr_parser_emit_push_const(yyscanner, 0));
 
         (yyval.expression).type = EXPRESSION_TYPE_BOOLEAN;
         (yyval.expression).required_strings.count = 0;
       }
-#line 3349 "libyara/grammar.c"
+#line 3354 "libyara/grammar.c"
     break;
 
   case 78: /* expression: primary_expression "<matches>" regexp  */
-#line 1378 "libyara/grammar.y"
+#line 1384 "libyara/grammar.y"
       {
         check_type((yyvsp[-2].expression), EXPRESSION_TYPE_STRING, "matches");
         check_type((yyvsp[0].expression), EXPRESSION_TYPE_REGEXP, "matches");
@@ -3362,11 +3367,11 @@ yyreduce:
         (yyval.expression).type = EXPRESSION_TYPE_BOOLEAN;
         (yyval.expression).required_strings.count = 0;
       }
-#line 3366 "libyara/grammar.c"
+#line 3371 "libyara/grammar.c"
     break;
 
   case 79: /* expression: primary_expression "<contains>" primary_expression  */
-#line 1391 "libyara/grammar.y"
+#line 1397 "libyara/grammar.y"
       {
         check_type((yyvsp[-2].expression), EXPRESSION_TYPE_STRING, "contains");
         check_type((yyvsp[0].expression), EXPRESSION_TYPE_STRING, "contains");
@@ -3377,11 +3382,11 @@ yyreduce:
         (yyval.expression).type = EXPRESSION_TYPE_BOOLEAN;
         (yyval.expression).required_strings.count = 0;
       }
-#line 3381 "libyara/grammar.c"
+#line 3386 "libyara/grammar.c"
     break;
 
   case 80: /* expression: primary_expression "<icontains>" primary_expression  */
-#line 1402 "libyara/grammar.y"
+#line 1408 "libyara/grammar.y"
       {
         check_type((yyvsp[-2].expression), EXPRESSION_TYPE_STRING, "icontains");
         check_type((yyvsp[0].expression), EXPRESSION_TYPE_STRING, "icontains");
@@ -3392,11 +3397,11 @@ yyreduce:
         (yyval.expression).type = EXPRESSION_TYPE_BOOLEAN;
         (yyval.expression).required_strings.count = 0;
       }
-#line 3396 "libyara/grammar.c"
+#line 3401 "libyara/grammar.c"
     break;
 
   case 81: /* expression: primary_expression "<startswith>" primary_expression  */
-#line 1413 "libyara/grammar.y"
+#line 1419 "libyara/grammar.y"
       {
         check_type((yyvsp[-2].expression), EXPRESSION_TYPE_STRING, "startswith");
         check_type((yyvsp[0].expression), EXPRESSION_TYPE_STRING, "startswith");
@@ -3407,11 +3412,11 @@ yyreduce:
         (yyval.expression).type = EXPRESSION_TYPE_BOOLEAN;
         (yyval.expression).required_strings.count = 0;
       }
-#line 3411 "libyara/grammar.c"
+#line 3416 "libyara/grammar.c"
     break;
 
   case 82: /* expression: primary_expression "<istartswith>" primary_expression  */
-#line 1424 "libyara/grammar.y"
+#line 1430 "libyara/grammar.y"
       {
         check_type((yyvsp[-2].expression), EXPRESSION_TYPE_STRING, "istartswith");
         check_type((yyvsp[0].expression), EXPRESSION_TYPE_STRING, "istartswith");
@@ -3422,11 +3427,11 @@ yyreduce:
         (yyval.expression).type = EXPRESSION_TYPE_BOOLEAN;
         (yyval.expression).required_strings.count = 0;
       }
-#line 3426 "libyara/grammar.c"
+#line 3431 "libyara/grammar.c"
     break;
 
   case 83: /* expression: primary_expression "<endswith>" primary_expression  */
-#line 1435 "libyara/grammar.y"
+#line 1441 "libyara/grammar.y"
       {
         check_type((yyvsp[-2].expression), EXPRESSION_TYPE_STRING, "endswith");
         check_type((yyvsp[0].expression), EXPRESSION_TYPE_STRING, "endswith");
@@ -3437,11 +3442,11 @@ yyreduce:
         (yyval.expression).type = EXPRESSION_TYPE_BOOLEAN;
         (yyval.expression).required_strings.count = 0;
       }
-#line 3441 "libyara/grammar.c"
+#line 3446 "libyara/grammar.c"
     break;
 
   case 84: /* expression: primary_expression "<iendswith>" primary_expression  */
-#line 1446 "libyara/grammar.y"
+#line 1452 "libyara/grammar.y"
       {
         check_type((yyvsp[-2].expression), EXPRESSION_TYPE_STRING, "iendswith");
         check_type((yyvsp[0].expression), EXPRESSION_TYPE_STRING, "iendswith");
@@ -3452,11 +3457,11 @@ yyreduce:
         (yyval.expression).type = EXPRESSION_TYPE_BOOLEAN;
         (yyval.expression).required_strings.count = 0;
       }
-#line 3456 "libyara/grammar.c"
+#line 3461 "libyara/grammar.c"
     break;
 
   case 85: /* expression: primary_expression "<iequals>" primary_expression  */
-#line 1457 "libyara/grammar.y"
+#line 1463 "libyara/grammar.y"
       {
         check_type((yyvsp[-2].expression), EXPRESSION_TYPE_STRING, "iequals");
         check_type((yyvsp[0].expression), EXPRESSION_TYPE_STRING, "iequals");
@@ -3467,11 +3472,11 @@ yyreduce:
         (yyval.expression).type = EXPRESSION_TYPE_BOOLEAN;
         (yyval.expression).required_strings.count = 0;
       }
-#line 3471 "libyara/grammar.c"
+#line 3476 "libyara/grammar.c"
     break;
 
   case 86: /* expression: "string identifier"  */
-#line 1468 "libyara/grammar.y"
+#line 1474 "libyara/grammar.y"
       {
         int result = yr_parser_reduce_string_identifier(
             yyscanner,
@@ -3486,11 +3491,11 @@ yyreduce:
         (yyval.expression).type = EXPRESSION_TYPE_BOOLEAN;
         (yyval.expression).required_strings.count = 1;
       }
-#line 3490 "libyara/grammar.c"
+#line 3495 "libyara/grammar.c"
     break;
 
   case 87: /* expression: "string identifier" "<at>" primary_expression  */
-#line 1483 "libyara/grammar.y"
+#line 1489 "libyara/grammar.y"
       {
         int result;
 
@@ -3506,11 +3511,11 @@ yyreduce:
         (yyval.expression).required_strings.count = 1;
         (yyval.expression).type = EXPRESSION_TYPE_BOOLEAN;
       }
-#line 3510 "libyara/grammar.c"
+#line 3515 "libyara/grammar.c"
     break;
 
   case 88: /* expression: "string identifier" "<in>" range  */
-#line 1499 "libyara/grammar.y"
+#line 1505 "libyara/grammar.y"
       {
         int result = yr_parser_reduce_string_identifier(
             yyscanner, (yyvsp[-2].c_string), OP_FOUND_IN, YR_UNDEFINED);
@@ -3522,11 +3527,11 @@ yyreduce:
         (yyval.expression).required_strings.count = 1;
         (yyval.expression).type = EXPRESSION_TYPE_BOOLEAN;
       }
-#line 3526 "libyara/grammar.c"
+#line 3531 "libyara/grammar.c"
     break;
 
   case 89: /* expression: "<for>" for_expression error  */
-#line 1511 "libyara/grammar.y"
+#line 1517 "libyara/grammar.y"
       {
         // Free all the loop variable identifiers, including the variables for
         // the current loop (represented by loop_index), and set loop_index to
@@ -3543,11 +3548,11 @@ yyreduce:
         compiler->loop_index = -1;
         YYERROR;
       }
-#line 3547 "libyara/grammar.c"
+#line 3552 "libyara/grammar.c"
     break;
 
   case 90: /* $@6: %empty  */
-#line 1585 "libyara/grammar.y"
+#line 1591 "libyara/grammar.y"
       {
         // var_frame is used for accessing local variables used in this loop.
         // All local variables are accessed using var_frame as a reference,
@@ -3585,11 +3590,11 @@ yyreduce:
         fail_if_error(yr_parser_emit_with_arg(
             yyscanner, OP_POP_M, var_frame + 2, NULL, NULL));
       }
-#line 3589 "libyara/grammar.c"
+#line 3594 "libyara/grammar.c"
     break;
 
   case 91: /* $@7: %empty  */
-#line 1623 "libyara/grammar.y"
+#line 1629 "libyara/grammar.y"
       {
         YR_LOOP_CONTEXT* loop_ctx = &compiler->loop[compiler->loop_index];
         YR_FIXUP* fixup;
@@ -3638,11 +3643,11 @@ yyreduce:
 
         loop_ctx->start_ref = loop_start_ref;
       }
-#line 3642 "libyara/grammar.c"
+#line 3647 "libyara/grammar.c"
     break;
 
   case 92: /* expression: "<for>" for_expression $@6 for_iteration ':' $@7 '(' boolean_expression ')'  */
-#line 1672 "libyara/grammar.y"
+#line 1678 "libyara/grammar.y"
       {
         int32_t jmp_offset;
         YR_FIXUP* fixup;
@@ -3723,11 +3728,11 @@ yyreduce:
         (yyval.expression).type = EXPRESSION_TYPE_BOOLEAN;
         (yyval.expression).required_strings.count = 0;
       }
-#line 3727 "libyara/grammar.c"
+#line 3732 "libyara/grammar.c"
     break;
 
   case 93: /* expression: for_expression "<of>" string_set  */
-#line 1753 "libyara/grammar.y"
+#line 1759 "libyara/grammar.y"
       {
         if ((yyvsp[-2].expression).type == EXPRESSION_TYPE_INTEGER && (yyvsp[-2].expression).value.integer > (yyvsp[0].integer))
         {
@@ -3750,11 +3755,11 @@ yyreduce:
 
         (yyval.expression).type = EXPRESSION_TYPE_BOOLEAN;
       }
-#line 3754 "libyara/grammar.c"
+#line 3759 "libyara/grammar.c"
     break;
 
   case 94: /* expression: for_expression "<of>" rule_set  */
-#line 1776 "libyara/grammar.y"
+#line 1782 "libyara/grammar.y"
       {
         if ((yyvsp[-2].expression).type == EXPRESSION_TYPE_INTEGER && (yyvsp[-2].expression).value.integer > (yyvsp[0].integer))
         {
@@ -3766,11 +3771,11 @@ yyreduce:
         (yyval.expression).type = EXPRESSION_TYPE_BOOLEAN;
         (yyval.expression).required_strings.count = 0;
       }
-#line 3770 "libyara/grammar.c"
+#line 3775 "libyara/grammar.c"
     break;
 
   case 95: /* expression: primary_expression '%' "<of>" string_set  */
-#line 1788 "libyara/grammar.y"
+#line 1794 "libyara/grammar.y"
       {
         check_type((yyvsp[-3].expression), EXPRESSION_TYPE_INTEGER, "%");
 
@@ -3798,11 +3803,11 @@ yyreduce:
 
         yr_parser_emit_with_arg(yyscanner, OP_OF_PERCENT, OF_STRING_SET, NULL, NULL);
       }
-#line 3802 "libyara/grammar.c"
+#line 3807 "libyara/grammar.c"
     break;
 
   case 96: /* expression: primary_expression '%' "<of>" rule_set  */
-#line 1816 "libyara/grammar.y"
+#line 1822 "libyara/grammar.y"
       {
         check_type((yyvsp[-3].expression), EXPRESSION_TYPE_INTEGER, "%");
 
@@ -3821,11 +3826,11 @@ yyreduce:
 
         yr_parser_emit_with_arg(yyscanner, OP_OF_PERCENT, OF_RULE_SET, NULL, NULL);
       }
-#line 3825 "libyara/grammar.c"
+#line 3830 "libyara/grammar.c"
     break;
 
   case 97: /* expression: for_expression "<of>" string_set "<in>" range  */
-#line 1835 "libyara/grammar.y"
+#line 1841 "libyara/grammar.y"
       {
         if ((yyvsp[-4].expression).type == EXPRESSION_TYPE_INTEGER && (yyvsp[-4].expression).value.integer > (yyvsp[-2].integer))
         {
@@ -3848,11 +3853,11 @@ yyreduce:
 
         (yyval.expression).type = EXPRESSION_TYPE_BOOLEAN;
       }
-#line 3852 "libyara/grammar.c"
+#line 3857 "libyara/grammar.c"
     break;
 
   case 98: /* expression: for_expression "<of>" string_set "<at>" primary_expression  */
-#line 1858 "libyara/grammar.y"
+#line 1864 "libyara/grammar.y"
       {
         if ((yyvsp[0].expression).type != EXPRESSION_TYPE_INTEGER)
         {
@@ -3900,32 +3905,32 @@ yyreduce:
 
         (yyval.expression).type = EXPRESSION_TYPE_BOOLEAN;
       }
-#line 3904 "libyara/grammar.c"
+#line 3909 "libyara/grammar.c"
     break;
 
   case 99: /* expression: "<not>" boolean_expression  */
-#line 1906 "libyara/grammar.y"
+#line 1912 "libyara/grammar.y"
       {
         yr_parser_emit(yyscanner, OP_NOT, NULL);
 
         (yyval.expression).type = EXPRESSION_TYPE_BOOLEAN;
         (yyval.expression).required_strings.count = 0;
       }
-#line 3915 "libyara/grammar.c"
+#line 3920 "libyara/grammar.c"
     break;
 
   case 100: /* expression: "<defined>" boolean_expression  */
-#line 1913 "libyara/grammar.y"
+#line 1919 "libyara/grammar.y"
       {
         yr_parser_emit(yyscanner, OP_DEFINED, NULL);
         (yyval.expression).type = EXPRESSION_TYPE_BOOLEAN;
         (yyval.expression).required_strings.count = 0;
       }
-#line 3925 "libyara/grammar.c"
+#line 3930 "libyara/grammar.c"
     break;
 
   case 101: /* $@8: %empty  */
-#line 1919 "libyara/grammar.y"
+#line 1925 "libyara/grammar.y"
       {
         YR_FIXUP* fixup;
         YR_ARENA_REF jmp_offset_ref;
@@ -3947,11 +3952,11 @@ yyreduce:
         fixup->next = compiler->fixup_stack_head;
         compiler->fixup_stack_head = fixup;
       }
-#line 3951 "libyara/grammar.c"
+#line 3956 "libyara/grammar.c"
     break;
 
   case 102: /* expression: boolean_expression "<and>" $@8 boolean_expression  */
-#line 1941 "libyara/grammar.y"
+#line 1947 "libyara/grammar.y"
       {
         YR_FIXUP* fixup;
 
@@ -3975,11 +3980,11 @@ yyreduce:
         (yyval.expression).type = EXPRESSION_TYPE_BOOLEAN;
         (yyval.expression).required_strings.count = (yyvsp[0].expression).required_strings.count + (yyvsp[-3].expression).required_strings.count;
       }
-#line 3979 "libyara/grammar.c"
+#line 3984 "libyara/grammar.c"
     break;
 
   case 103: /* $@9: %empty  */
-#line 1965 "libyara/grammar.y"
+#line 1971 "libyara/grammar.y"
       {
         YR_FIXUP* fixup;
         YR_ARENA_REF jmp_offset_ref;
@@ -4000,11 +4005,11 @@ yyreduce:
         fixup->next = compiler->fixup_stack_head;
         compiler->fixup_stack_head = fixup;
       }
-#line 4004 "libyara/grammar.c"
+#line 4009 "libyara/grammar.c"
     break;
 
   case 104: /* expression: boolean_expression "<or>" $@9 boolean_expression  */
-#line 1986 "libyara/grammar.y"
+#line 1992 "libyara/grammar.y"
       {
         YR_FIXUP* fixup;
 
@@ -4034,11 +4039,11 @@ yyreduce:
           (yyval.expression).required_strings.count = (yyvsp[-3].expression).required_strings.count;
         }
       }
-#line 4038 "libyara/grammar.c"
+#line 4043 "libyara/grammar.c"
     break;
 
   case 105: /* expression: primary_expression "<" primary_expression  */
-#line 2016 "libyara/grammar.y"
+#line 2022 "libyara/grammar.y"
       {
         fail_if_error(yr_parser_reduce_operation(
             yyscanner, "<", (yyvsp[-2].expression), (yyvsp[0].expression)));
@@ -4046,11 +4051,11 @@ yyreduce:
         (yyval.expression).type = EXPRESSION_TYPE_BOOLEAN;
         (yyval.expression).required_strings.count = 0;
       }
-#line 4050 "libyara/grammar.c"
+#line 4055 "libyara/grammar.c"
     break;
 
   case 106: /* expression: primary_expression ">" primary_expression  */
-#line 2024 "libyara/grammar.y"
+#line 2030 "libyara/grammar.y"
       {
         fail_if_error(yr_parser_reduce_operation(
             yyscanner, ">", (yyvsp[-2].expression), (yyvsp[0].expression)));
@@ -4058,11 +4063,11 @@ yyreduce:
         (yyval.expression).type = EXPRESSION_TYPE_BOOLEAN;
         (yyval.expression).required_strings.count = 0;
       }
-#line 4062 "libyara/grammar.c"
+#line 4067 "libyara/grammar.c"
     break;
 
   case 107: /* expression: primary_expression "<=" primary_expression  */
-#line 2032 "libyara/grammar.y"
+#line 2038 "libyara/grammar.y"
       {
         fail_if_error(yr_parser_reduce_operation(
             yyscanner, "<=", (yyvsp[-2].expression), (yyvsp[0].expression)));
@@ -4070,11 +4075,11 @@ yyreduce:
         (yyval.expression).type = EXPRESSION_TYPE_BOOLEAN;
         (yyval.expression).required_strings.count = 0;
       }
-#line 4074 "libyara/grammar.c"
+#line 4079 "libyara/grammar.c"
     break;
 
   case 108: /* expression: primary_expression ">=" primary_expression  */
-#line 2040 "libyara/grammar.y"
+#line 2046 "libyara/grammar.y"
       {
         fail_if_error(yr_parser_reduce_operation(
             yyscanner, ">=", (yyvsp[-2].expression), (yyvsp[0].expression)));
@@ -4082,11 +4087,11 @@ yyreduce:
         (yyval.expression).type = EXPRESSION_TYPE_BOOLEAN;
         (yyval.expression).required_strings.count = 0;
       }
-#line 4086 "libyara/grammar.c"
+#line 4091 "libyara/grammar.c"
     break;
 
   case 109: /* expression: primary_expression "==" primary_expression  */
-#line 2048 "libyara/grammar.y"
+#line 2054 "libyara/grammar.y"
       {
         fail_if_error(yr_parser_reduce_operation(
             yyscanner, "==", (yyvsp[-2].expression), (yyvsp[0].expression)));
@@ -4094,11 +4099,11 @@ yyreduce:
         (yyval.expression).type = EXPRESSION_TYPE_BOOLEAN;
         (yyval.expression).required_strings.count = 0;
       }
-#line 4098 "libyara/grammar.c"
+#line 4103 "libyara/grammar.c"
     break;
 
   case 110: /* expression: primary_expression "!=" primary_expression  */
-#line 2056 "libyara/grammar.y"
+#line 2062 "libyara/grammar.y"
       {
         fail_if_error(yr_parser_reduce_operation(
             yyscanner, "!=", (yyvsp[-2].expression), (yyvsp[0].expression)));
@@ -4106,33 +4111,33 @@ yyreduce:
         (yyval.expression).type = EXPRESSION_TYPE_BOOLEAN;
         (yyval.expression).required_strings.count = 0;
       }
-#line 4110 "libyara/grammar.c"
+#line 4115 "libyara/grammar.c"
     break;
 
   case 111: /* expression: primary_expression  */
-#line 2064 "libyara/grammar.y"
+#line 2070 "libyara/grammar.y"
       {
         (yyval.expression) = (yyvsp[0].expression);
       }
-#line 4118 "libyara/grammar.c"
+#line 4123 "libyara/grammar.c"
     break;
 
   case 112: /* expression: '(' expression ')'  */
-#line 2068 "libyara/grammar.y"
+#line 2074 "libyara/grammar.y"
       {
         (yyval.expression) = (yyvsp[-1].expression);
       }
-#line 4126 "libyara/grammar.c"
+#line 4131 "libyara/grammar.c"
     break;
 
   case 113: /* for_iteration: for_variables "<in>" iterator  */
-#line 2075 "libyara/grammar.y"
+#line 2081 "libyara/grammar.y"
                                   { (yyval.integer) = FOR_ITERATION_ITERATOR; }
-#line 4132 "libyara/grammar.c"
+#line 4137 "libyara/grammar.c"
     break;
 
   case 114: /* for_iteration: "<of>" string_iterator  */
-#line 2077 "libyara/grammar.y"
+#line 2083 "libyara/grammar.y"
       {
         int var_frame;
         int result = ERROR_SUCCESS;
@@ -4153,11 +4158,11 @@ yyreduce:
 
         (yyval.integer) = FOR_ITERATION_STRING_SET;
       }
-#line 4157 "libyara/grammar.c"
+#line 4162 "libyara/grammar.c"
     break;
 
   case 115: /* for_variables: "identifier"  */
-#line 2102 "libyara/grammar.y"
+#line 2108 "libyara/grammar.y"
       {
         int result = ERROR_SUCCESS;
 
@@ -4177,11 +4182,11 @@ yyreduce:
 
         assert(loop_ctx->vars_count <= YR_MAX_LOOP_VARS);
       }
-#line 4181 "libyara/grammar.c"
+#line 4186 "libyara/grammar.c"
     break;
 
   case 116: /* for_variables: for_variables ',' "identifier"  */
-#line 2122 "libyara/grammar.y"
+#line 2128 "libyara/grammar.y"
       {
         int result = ERROR_SUCCESS;
 
@@ -4206,11 +4211,11 @@ yyreduce:
 
         loop_ctx->vars[loop_ctx->vars_count++].identifier.ptr = (yyvsp[0].c_string);
       }
-#line 4210 "libyara/grammar.c"
+#line 4215 "libyara/grammar.c"
     break;
 
   case 117: /* iterator: identifier  */
-#line 2150 "libyara/grammar.y"
+#line 2156 "libyara/grammar.y"
       {
         YR_LOOP_CONTEXT* loop_ctx = &compiler->loop[compiler->loop_index];
 
@@ -4284,11 +4289,11 @@ yyreduce:
 
         fail_if_error(result);
       }
-#line 4288 "libyara/grammar.c"
+#line 4293 "libyara/grammar.c"
     break;
 
   case 118: /* iterator: set  */
-#line 2224 "libyara/grammar.y"
+#line 2230 "libyara/grammar.y"
       {
         int result = ERROR_SUCCESS;
 
@@ -4316,11 +4321,11 @@ yyreduce:
 
         fail_if_error(result);
       }
-#line 4320 "libyara/grammar.c"
+#line 4325 "libyara/grammar.c"
     break;
 
   case 119: /* set: '(' enumeration ')'  */
-#line 2256 "libyara/grammar.y"
+#line 2262 "libyara/grammar.y"
       {
         // $2.count contains the number of items in the enumeration
         fail_if_error(yr_parser_emit_push_const(yyscanner, (yyvsp[-1].enumeration).count));
@@ -4338,22 +4343,22 @@ yyreduce:
 
         (yyval.enumeration).type = (yyvsp[-1].enumeration).type;
       }
-#line 4342 "libyara/grammar.c"
+#line 4347 "libyara/grammar.c"
     break;
 
   case 120: /* set: range  */
-#line 2274 "libyara/grammar.y"
+#line 2280 "libyara/grammar.y"
       {
         fail_if_error(yr_parser_emit(
             yyscanner, OP_ITER_START_INT_RANGE, NULL));
 
         (yyval.enumeration).type = EXPRESSION_TYPE_INTEGER;
       }
-#line 4353 "libyara/grammar.c"
+#line 4358 "libyara/grammar.c"
     break;
 
   case 121: /* range: '(' primary_expression ".." primary_expression ')'  */
-#line 2285 "libyara/grammar.y"
+#line 2291 "libyara/grammar.y"
       {
         int result = ERROR_SUCCESS;
 
@@ -4392,11 +4397,11 @@ yyreduce:
 
         fail_if_error(result);
       }
-#line 4396 "libyara/grammar.c"
+#line 4401 "libyara/grammar.c"
     break;
 
   case 122: /* enumeration: primary_expression  */
-#line 2328 "libyara/grammar.y"
+#line 2334 "libyara/grammar.y"
       {
         int result = ERROR_SUCCESS;
 
@@ -4412,11 +4417,11 @@ yyreduce:
         (yyval.enumeration).type = (yyvsp[0].expression).type;
         (yyval.enumeration).count = 1;
       }
-#line 4416 "libyara/grammar.c"
+#line 4421 "libyara/grammar.c"
     break;
 
   case 123: /* enumeration: enumeration ',' primary_expression  */
-#line 2344 "libyara/grammar.y"
+#line 2350 "libyara/grammar.y"
       {
         int result = ERROR_SUCCESS;
 
@@ -4432,38 +4437,38 @@ yyreduce:
         (yyval.enumeration).type = (yyvsp[-2].enumeration).type;
         (yyval.enumeration).count = (yyvsp[-2].enumeration).count + 1;
       }
-#line 4436 "libyara/grammar.c"
+#line 4441 "libyara/grammar.c"
     break;
 
   case 124: /* string_iterator: string_set  */
-#line 2364 "libyara/grammar.y"
+#line 2370 "libyara/grammar.y"
       {
         fail_if_error(yr_parser_emit_push_const(yyscanner, (yyvsp[0].integer)));
         fail_if_error(yr_parser_emit(yyscanner, OP_ITER_START_STRING_SET,
             NULL));
       }
-#line 4446 "libyara/grammar.c"
+#line 4451 "libyara/grammar.c"
     break;
 
   case 125: /* $@10: %empty  */
-#line 2373 "libyara/grammar.y"
+#line 2379 "libyara/grammar.y"
       {
         // Push end-of-list marker
         yr_parser_emit_push_const(yyscanner, YR_UNDEFINED);
       }
-#line 4455 "libyara/grammar.c"
+#line 4460 "libyara/grammar.c"
     break;
 
   case 126: /* string_set: '(' $@10 string_enumeration ')'  */
-#line 2378 "libyara/grammar.y"
+#line 2384 "libyara/grammar.y"
       {
         (yyval.integer) = (yyvsp[-1].integer);
       }
-#line 4463 "libyara/grammar.c"
+#line 4468 "libyara/grammar.c"
     break;
 
   case 127: /* string_set: "<them>"  */
-#line 2382 "libyara/grammar.y"
+#line 2388 "libyara/grammar.y"
       {
         fail_if_error(yr_parser_emit_push_const(yyscanner, YR_UNDEFINED));
 
@@ -4473,23 +4478,23 @@ yyreduce:
 
         (yyval.integer) = count;
       }
-#line 4477 "libyara/grammar.c"
+#line 4482 "libyara/grammar.c"
     break;
 
   case 128: /* string_enumeration: string_enumeration_item  */
-#line 2395 "libyara/grammar.y"
+#line 2401 "libyara/grammar.y"
                               { (yyval.integer) = (yyvsp[0].integer); }
-#line 4483 "libyara/grammar.c"
+#line 4488 "libyara/grammar.c"
     break;
 
   case 129: /* string_enumeration: string_enumeration ',' string_enumeration_item  */
-#line 2396 "libyara/grammar.y"
+#line 2402 "libyara/grammar.y"
                                                      { (yyval.integer) = (yyvsp[-2].integer) + (yyvsp[0].integer); }
-#line 4489 "libyara/grammar.c"
+#line 4494 "libyara/grammar.c"
     break;
 
   case 130: /* string_enumeration_item: "string identifier"  */
-#line 2402 "libyara/grammar.y"
+#line 2408 "libyara/grammar.y"
       {
         int count = 0;
         int result = yr_parser_emit_pushes_for_strings(yyscanner, (yyvsp[0].c_string), &count);
@@ -4499,11 +4504,11 @@ yyreduce:
 
         (yyval.integer) = count;
       }
-#line 4503 "libyara/grammar.c"
+#line 4508 "libyara/grammar.c"
     break;
 
   case 131: /* string_enumeration_item: "string identifier with wildcard"  */
-#line 2412 "libyara/grammar.y"
+#line 2418 "libyara/grammar.y"
       {
         int count = 0;
         int result = yr_parser_emit_pushes_for_strings(yyscanner, (yyvsp[0].c_string), &count);
@@ -4513,40 +4518,40 @@ yyreduce:
 
         (yyval.integer) = count;
       }
-#line 4517 "libyara/grammar.c"
+#line 4522 "libyara/grammar.c"
     break;
 
   case 132: /* $@11: %empty  */
-#line 2426 "libyara/grammar.y"
+#line 2432 "libyara/grammar.y"
       {
         // Push end-of-list marker
         yr_parser_emit_push_const(yyscanner, YR_UNDEFINED);
       }
-#line 4526 "libyara/grammar.c"
+#line 4531 "libyara/grammar.c"
     break;
 
   case 133: /* rule_set: '(' $@11 rule_enumeration ')'  */
-#line 2431 "libyara/grammar.y"
+#line 2437 "libyara/grammar.y"
       {
         (yyval.integer) = (yyvsp[-1].integer);
       }
-#line 4534 "libyara/grammar.c"
+#line 4539 "libyara/grammar.c"
     break;
 
   case 134: /* rule_enumeration: rule_enumeration_item  */
-#line 2438 "libyara/grammar.y"
+#line 2444 "libyara/grammar.y"
                             { (yyval.integer) = (yyvsp[0].integer); }
-#line 4540 "libyara/grammar.c"
+#line 4545 "libyara/grammar.c"
     break;
 
   case 135: /* rule_enumeration: rule_enumeration ',' rule_enumeration_item  */
-#line 2439 "libyara/grammar.y"
+#line 2445 "libyara/grammar.y"
                                                  { (yyval.integer) = (yyvsp[-2].integer) + (yyvsp[0].integer); }
-#line 4546 "libyara/grammar.c"
+#line 4551 "libyara/grammar.c"
     break;
 
   case 136: /* rule_enumeration_item: "identifier"  */
-#line 2445 "libyara/grammar.y"
+#line 2451 "libyara/grammar.y"
       {
         int result = ERROR_SUCCESS;
 
@@ -4579,11 +4584,11 @@ yyreduce:
 
         (yyval.integer) = 1;
       }
-#line 4583 "libyara/grammar.c"
+#line 4588 "libyara/grammar.c"
     break;
 
   case 137: /* rule_enumeration_item: "identifier" '*'  */
-#line 2478 "libyara/grammar.y"
+#line 2484 "libyara/grammar.y"
       {
         int count = 0;
         YR_NAMESPACE* ns = (YR_NAMESPACE*) yr_arena_get_ptr(
@@ -4604,11 +4609,11 @@ yyreduce:
 
         (yyval.integer) = count;
       }
-#line 4608 "libyara/grammar.c"
+#line 4613 "libyara/grammar.c"
     break;
 
   case 138: /* for_expression: primary_expression  */
-#line 2503 "libyara/grammar.y"
+#line 2509 "libyara/grammar.y"
       {
         if ((yyvsp[0].expression).type == EXPRESSION_TYPE_INTEGER && !IS_UNDEFINED((yyvsp[0].expression).value.integer))
         {
@@ -4664,57 +4669,57 @@ yyreduce:
 
         (yyval.expression).value.integer = (yyvsp[0].expression).value.integer;
       }
-#line 4668 "libyara/grammar.c"
+#line 4673 "libyara/grammar.c"
     break;
 
   case 139: /* for_expression: for_quantifier  */
-#line 2559 "libyara/grammar.y"
+#line 2565 "libyara/grammar.y"
       {
         (yyval.expression).value.integer = (yyvsp[0].expression).value.integer;
       }
-#line 4676 "libyara/grammar.c"
+#line 4681 "libyara/grammar.c"
     break;
 
   case 140: /* for_quantifier: "<all>"  */
-#line 2566 "libyara/grammar.y"
+#line 2572 "libyara/grammar.y"
       {
         yr_parser_emit_push_const(yyscanner, YR_UNDEFINED);
         (yyval.expression).type = EXPRESSION_TYPE_QUANTIFIER;
         (yyval.expression).value.integer = FOR_EXPRESSION_ALL;
      }
-#line 4686 "libyara/grammar.c"
+#line 4691 "libyara/grammar.c"
     break;
 
   case 141: /* for_quantifier: "<any>"  */
-#line 2572 "libyara/grammar.y"
+#line 2578 "libyara/grammar.y"
       {
         yr_parser_emit_push_const(yyscanner, 1);
         (yyval.expression).type = EXPRESSION_TYPE_QUANTIFIER;
         (yyval.expression).value.integer = FOR_EXPRESSION_ANY;
       }
-#line 4696 "libyara/grammar.c"
+#line 4701 "libyara/grammar.c"
     break;
 
   case 142: /* for_quantifier: "<none>"  */
-#line 2578 "libyara/grammar.y"
+#line 2584 "libyara/grammar.y"
       {
         yr_parser_emit_push_const(yyscanner, 0);
         (yyval.expression).type = EXPRESSION_TYPE_QUANTIFIER;
         (yyval.expression).value.integer = FOR_EXPRESSION_NONE;
       }
-#line 4706 "libyara/grammar.c"
+#line 4711 "libyara/grammar.c"
     break;
 
   case 143: /* primary_expression: '(' primary_expression ')'  */
-#line 2588 "libyara/grammar.y"
+#line 2594 "libyara/grammar.y"
       {
         (yyval.expression) = (yyvsp[-1].expression);
       }
-#line 4714 "libyara/grammar.c"
+#line 4719 "libyara/grammar.c"
     break;
 
   case 144: /* primary_expression: "<filesize>"  */
-#line 2592 "libyara/grammar.y"
+#line 2598 "libyara/grammar.y"
       {
         fail_if_error(yr_parser_emit(
             yyscanner, OP_FILESIZE, NULL));
@@ -4722,11 +4727,11 @@ yyreduce:
         (yyval.expression).type = EXPRESSION_TYPE_INTEGER;
         (yyval.expression).value.integer = YR_UNDEFINED;
       }
-#line 4726 "libyara/grammar.c"
+#line 4731 "libyara/grammar.c"
     break;
 
   case 145: /* primary_expression: "<entrypoint>"  */
-#line 2600 "libyara/grammar.y"
+#line 2606 "libyara/grammar.y"
       {
         yywarning(yyscanner,
             "using deprecated \"entrypoint\" keyword. Use the \"entry_point\" "
@@ -4738,11 +4743,11 @@ yyreduce:
         (yyval.expression).type = EXPRESSION_TYPE_INTEGER;
         (yyval.expression).value.integer = YR_UNDEFINED;
       }
-#line 4742 "libyara/grammar.c"
+#line 4747 "libyara/grammar.c"
     break;
 
   case 146: /* primary_expression: "integer function" '(' primary_expression ')'  */
-#line 2612 "libyara/grammar.y"
+#line 2618 "libyara/grammar.y"
       {
         check_type((yyvsp[-1].expression), EXPRESSION_TYPE_INTEGER, "intXXXX or uintXXXX");
 
@@ -4756,33 +4761,33 @@ yyreduce:
         (yyval.expression).type = EXPRESSION_TYPE_INTEGER;
         (yyval.expression).value.integer = YR_UNDEFINED;
       }
-#line 4760 "libyara/grammar.c"
+#line 4765 "libyara/grammar.c"
     break;
 
   case 147: /* primary_expression: "integer number"  */
-#line 2626 "libyara/grammar.y"
+#line 2632 "libyara/grammar.y"
       {
         fail_if_error(yr_parser_emit_push_const(yyscanner, (yyvsp[0].integer)));
 
         (yyval.expression).type = EXPRESSION_TYPE_INTEGER;
         (yyval.expression).value.integer = (yyvsp[0].integer);
       }
-#line 4771 "libyara/grammar.c"
+#line 4776 "libyara/grammar.c"
     break;
 
   case 148: /* primary_expression: "floating point number"  */
-#line 2633 "libyara/grammar.y"
+#line 2639 "libyara/grammar.y"
       {
         fail_if_error(yr_parser_emit_with_arg_double(
             yyscanner, OP_PUSH, (yyvsp[0].double_), NULL, NULL));
 
         (yyval.expression).type = EXPRESSION_TYPE_FLOAT;
       }
-#line 4782 "libyara/grammar.c"
+#line 4787 "libyara/grammar.c"
     break;
 
   case 149: /* primary_expression: "text string"  */
-#line 2640 "libyara/grammar.y"
+#line 2646 "libyara/grammar.y"
       {
         YR_ARENA_REF ref;
 
@@ -4807,11 +4812,11 @@ yyreduce:
         (yyval.expression).type = EXPRESSION_TYPE_STRING;
         (yyval.expression).value.sized_string_ref = ref;
       }
-#line 4811 "libyara/grammar.c"
+#line 4816 "libyara/grammar.c"
     break;
 
   case 150: /* primary_expression: "string count" "<in>" range  */
-#line 2665 "libyara/grammar.y"
+#line 2671 "libyara/grammar.y"
       {
         int result = yr_parser_reduce_string_identifier(
             yyscanner, (yyvsp[-2].c_string), OP_COUNT_IN, YR_UNDEFINED);
@@ -4823,11 +4828,11 @@ yyreduce:
         (yyval.expression).type = EXPRESSION_TYPE_INTEGER;
         (yyval.expression).value.integer = YR_UNDEFINED;
       }
-#line 4827 "libyara/grammar.c"
+#line 4832 "libyara/grammar.c"
     break;
 
   case 151: /* primary_expression: "string count"  */
-#line 2677 "libyara/grammar.y"
+#line 2683 "libyara/grammar.y"
       {
         int result = yr_parser_reduce_string_identifier(
             yyscanner, (yyvsp[0].c_string), OP_COUNT, YR_UNDEFINED);
@@ -4839,11 +4844,11 @@ yyreduce:
         (yyval.expression).type = EXPRESSION_TYPE_INTEGER;
         (yyval.expression).value.integer = YR_UNDEFINED;
       }
-#line 4843 "libyara/grammar.c"
+#line 4848 "libyara/grammar.c"
     break;
 
   case 152: /* primary_expression: "string offset" '[' primary_expression ']'  */
-#line 2689 "libyara/grammar.y"
+#line 2695 "libyara/grammar.y"
       {
         int result = yr_parser_reduce_string_identifier(
             yyscanner, (yyvsp[-3].c_string), OP_OFFSET, YR_UNDEFINED);
@@ -4855,11 +4860,11 @@ yyreduce:
         (yyval.expression).type = EXPRESSION_TYPE_INTEGER;
         (yyval.expression).value.integer = YR_UNDEFINED;
       }
-#line 4859 "libyara/grammar.c"
+#line 4864 "libyara/grammar.c"
     break;
 
   case 153: /* primary_expression: "string offset"  */
-#line 2701 "libyara/grammar.y"
+#line 2707 "libyara/grammar.y"
       {
         int result = yr_parser_emit_push_const(yyscanner, 1);
 
@@ -4874,11 +4879,11 @@ yyreduce:
         (yyval.expression).type = EXPRESSION_TYPE_INTEGER;
         (yyval.expression).value.integer = YR_UNDEFINED;
       }
-#line 4878 "libyara/grammar.c"
+#line 4883 "libyara/grammar.c"
     break;
 
   case 154: /* primary_expression: "string length" '[' primary_expression ']'  */
-#line 2716 "libyara/grammar.y"
+#line 2722 "libyara/grammar.y"
       {
         int result = yr_parser_reduce_string_identifier(
             yyscanner, (yyvsp[-3].c_string), OP_LENGTH, YR_UNDEFINED);
@@ -4890,11 +4895,11 @@ yyreduce:
         (yyval.expression).type = EXPRESSION_TYPE_INTEGER;
         (yyval.expression).value.integer = YR_UNDEFINED;
       }
-#line 4894 "libyara/grammar.c"
+#line 4899 "libyara/grammar.c"
     break;
 
   case 155: /* primary_expression: "string length"  */
-#line 2728 "libyara/grammar.y"
+#line 2734 "libyara/grammar.y"
       {
         int result = yr_parser_emit_push_const(yyscanner, 1);
 
@@ -4909,11 +4914,11 @@ yyreduce:
         (yyval.expression).type = EXPRESSION_TYPE_INTEGER;
         (yyval.expression).value.integer = YR_UNDEFINED;
       }
-#line 4913 "libyara/grammar.c"
+#line 4918 "libyara/grammar.c"
     break;
 
   case 156: /* primary_expression: identifier  */
-#line 2743 "libyara/grammar.y"
+#line 2749 "libyara/grammar.y"
       {
         int result = ERROR_SUCCESS;
 
@@ -4959,11 +4964,11 @@ yyreduce:
 
         fail_if_error(result);
       }
-#line 4963 "libyara/grammar.c"
+#line 4968 "libyara/grammar.c"
     break;
 
   case 157: /* primary_expression: '-' primary_expression  */
-#line 2789 "libyara/grammar.y"
+#line 2795 "libyara/grammar.y"
       {
         int result = ERROR_SUCCESS;
 
@@ -4984,11 +4989,11 @@ yyreduce:
 
         fail_if_error(result);
       }
-#line 4988 "libyara/grammar.c"
+#line 4993 "libyara/grammar.c"
     break;
 
   case 158: /* primary_expression: primary_expression '+' primary_expression  */
-#line 2810 "libyara/grammar.y"
+#line 2816 "libyara/grammar.y"
       {
         int result = yr_parser_reduce_operation(
             yyscanner, "+", (yyvsp[-2].expression), (yyvsp[0].expression));
@@ -5023,11 +5028,11 @@ yyreduce:
 
         fail_if_error(result);
       }
-#line 5027 "libyara/grammar.c"
+#line 5032 "libyara/grammar.c"
     break;
 
   case 159: /* primary_expression: primary_expression '-' primary_expression  */
-#line 2845 "libyara/grammar.y"
+#line 2851 "libyara/grammar.y"
       {
         int result = yr_parser_reduce_operation(
             yyscanner, "-", (yyvsp[-2].expression), (yyvsp[0].expression));
@@ -5062,11 +5067,11 @@ yyreduce:
 
         fail_if_error(result);
       }
-#line 5066 "libyara/grammar.c"
+#line 5071 "libyara/grammar.c"
     break;
 
   case 160: /* primary_expression: primary_expression '*' primary_expression  */
-#line 2880 "libyara/grammar.y"
+#line 2886 "libyara/grammar.y"
       {
         int result = yr_parser_reduce_operation(
             yyscanner, "*", (yyvsp[-2].expression), (yyvsp[0].expression));
@@ -5100,11 +5105,11 @@ yyreduce:
 
         fail_if_error(result);
       }
-#line 5104 "libyara/grammar.c"
+#line 5109 "libyara/grammar.c"
     break;
 
   case 161: /* primary_expression: primary_expression '\\' primary_expression  */
-#line 2914 "libyara/grammar.y"
+#line 2920 "libyara/grammar.y"
       {
         int result = yr_parser_reduce_operation(
             yyscanner, "\\", (yyvsp[-2].expression), (yyvsp[0].expression));
@@ -5135,11 +5140,11 @@ yyreduce:
 
         fail_if_error(result);
       }
-#line 5139 "libyara/grammar.c"
+#line 5144 "libyara/grammar.c"
     break;
 
   case 162: /* primary_expression: primary_expression '%' primary_expression  */
-#line 2945 "libyara/grammar.y"
+#line 2951 "libyara/grammar.y"
       {
         check_type((yyvsp[-2].expression), EXPRESSION_TYPE_INTEGER, "%");
         check_type((yyvsp[0].expression), EXPRESSION_TYPE_INTEGER, "%");
@@ -5162,11 +5167,11 @@ yyreduce:
           fail_if_error(ERROR_DIVISION_BY_ZERO);
         }
       }
-#line 5166 "libyara/grammar.c"
+#line 5171 "libyara/grammar.c"
     break;
 
   case 163: /* primary_expression: primary_expression '^' primary_expression  */
-#line 2968 "libyara/grammar.y"
+#line 2974 "libyara/grammar.y"
       {
         check_type((yyvsp[-2].expression), EXPRESSION_TYPE_INTEGER, "^");
         check_type((yyvsp[0].expression), EXPRESSION_TYPE_INTEGER, "^");
@@ -5176,11 +5181,11 @@ yyreduce:
         (yyval.expression).type = EXPRESSION_TYPE_INTEGER;
         (yyval.expression).value.integer = OPERATION(^, (yyvsp[-2].expression).value.integer, (yyvsp[0].expression).value.integer);
       }
-#line 5180 "libyara/grammar.c"
+#line 5185 "libyara/grammar.c"
     break;
 
   case 164: /* primary_expression: primary_expression '&' primary_expression  */
-#line 2978 "libyara/grammar.y"
+#line 2984 "libyara/grammar.y"
       {
         check_type((yyvsp[-2].expression), EXPRESSION_TYPE_INTEGER, "^");
         check_type((yyvsp[0].expression), EXPRESSION_TYPE_INTEGER, "^");
@@ -5190,11 +5195,11 @@ yyreduce:
         (yyval.expression).type = EXPRESSION_TYPE_INTEGER;
         (yyval.expression).value.integer = OPERATION(&, (yyvsp[-2].expression).value.integer, (yyvsp[0].expression).value.integer);
       }
-#line 5194 "libyara/grammar.c"
+#line 5199 "libyara/grammar.c"
     break;
 
   case 165: /* primary_expression: primary_expression '|' primary_expression  */
-#line 2988 "libyara/grammar.y"
+#line 2994 "libyara/grammar.y"
       {
         check_type((yyvsp[-2].expression), EXPRESSION_TYPE_INTEGER, "|");
         check_type((yyvsp[0].expression), EXPRESSION_TYPE_INTEGER, "|");
@@ -5204,11 +5209,11 @@ yyreduce:
         (yyval.expression).type = EXPRESSION_TYPE_INTEGER;
         (yyval.expression).value.integer = OPERATION(|, (yyvsp[-2].expression).value.integer, (yyvsp[0].expression).value.integer);
       }
-#line 5208 "libyara/grammar.c"
+#line 5213 "libyara/grammar.c"
     break;
 
   case 166: /* primary_expression: '~' primary_expression  */
-#line 2998 "libyara/grammar.y"
+#line 3004 "libyara/grammar.y"
       {
         check_type((yyvsp[0].expression), EXPRESSION_TYPE_INTEGER, "~");
 
@@ -5218,11 +5223,11 @@ yyreduce:
         (yyval.expression).value.integer = ((yyvsp[0].expression).value.integer == YR_UNDEFINED) ?
             YR_UNDEFINED : ~((yyvsp[0].expression).value.integer);
       }
-#line 5222 "libyara/grammar.c"
+#line 5227 "libyara/grammar.c"
     break;
 
   case 167: /* primary_expression: primary_expression "<<" primary_expression  */
-#line 3008 "libyara/grammar.y"
+#line 3014 "libyara/grammar.y"
       {
         int result;
 
@@ -5242,11 +5247,11 @@ yyreduce:
 
         fail_if_error(result);
       }
-#line 5246 "libyara/grammar.c"
+#line 5251 "libyara/grammar.c"
     break;
 
   case 168: /* primary_expression: primary_expression ">>" primary_expression  */
-#line 3028 "libyara/grammar.y"
+#line 3034 "libyara/grammar.y"
       {
         int result;
 
@@ -5266,19 +5271,19 @@ yyreduce:
 
         fail_if_error(result);
       }
-#line 5270 "libyara/grammar.c"
+#line 5275 "libyara/grammar.c"
     break;
 
   case 169: /* primary_expression: regexp  */
-#line 3048 "libyara/grammar.y"
+#line 3054 "libyara/grammar.y"
       {
         (yyval.expression) = (yyvsp[0].expression);
       }
-#line 5278 "libyara/grammar.c"
+#line 5283 "libyara/grammar.c"
     break;
 
 
-#line 5282 "libyara/grammar.c"
+#line 5287 "libyara/grammar.c"
 
       default: break;
     }
@@ -5502,5 +5507,5 @@ yyreturnlab:
   return yyresult;
 }
 
-#line 3053 "libyara/grammar.y"
+#line 3059 "libyara/grammar.y"
 
